@@ -406,8 +406,46 @@ def _save_paths(ck, p):
         has_join = any(c.endswith("::join") and "path" in c for c in calls)
         has_name = any(c == "harper_ls::dictionary_io::file_dict_name" for c in calls)
         reads_field = _reads_field(g, "file_dict_path")
-        ck.decide(rule, "path:get_file_dict_path", has_join and has_name and reads_field, g.span,
-                  "get_file_dict_path joins Config.file_dict_path (%s) with file_dict_name(url) (%s)" % (reads_field, has_name))
+        if has_join and has_name and reads_field:
+            ck.proved(rule, "path:get_file_dict_path", g.span, "get_file_dict_path joins Config.file_dict_path with file_dict_name(url)")
+        else:
+            ck.undecided(rule, "path:get_file_dict_path", g.span, "join / file_dict_name / Config.file_dict_path not all seen directly in get_file_dict_path (%s, %s, %s); the only-from-config clause below decides the answers" % (has_join, has_name, reads_field))
+        # exclusive: every path it answers with is that join, computed from the configuration as it is now
+        pv = Prov(g)
+        oks = []
+        for bi, b in enumerate(g.blocks):
+            if b["cleanup"]:
+                continue
+            for sx in b["s"]:
+                if sx["k"] == "assign" and sx["lhs"] == [0] and sx["rv"]["k"] == "agg" and sx["rv"].get("vname") == "Ok":
+                    oks.append((bi, sx))
+        bad = []
+        for bi, sx in oks:
+            srcs = [o for o in flatten(pv.trace_operand(sx["rv"]["ops"][0])) if o[0] == "call"]
+            # look through clones of a freshly joined path
+            seen, work, roots = set(), list(srcs), []
+            while work:
+                o = work.pop()
+                if o in seen:
+                    continue
+                seen.add(o)
+                t = g.blocks[o[1]]["t"]
+                m = last(norm(t["f"].get("inst") or t["f"].get("def") or ""))
+                if m in ("clone", "to_path_buf", "to_owned", "into", "from") and t["args"]:
+                    nxt = [x for x in flatten(pv.trace_operand(t["args"][0])) if x[0] == "call"]
+                    if nxt:
+                        work += nxt
+                        continue
+                roots.append((o, m, t))
+            for o, m, t in roots:
+                if m == "join" and _derives_from_field(g, pv, t["args"][0], "file_dict_path"):
+                    continue
+                bad.append("%s (line %d)" % (norm(t["f"].get("inst") or t["f"].get("def") or "?"), t["ln"]))
+            if not roots:
+                bad.append("a value that no call produced (line %d)" % sx["ln"])
+        if ck.anchor(rule, "Ok(..) answers of get_file_dict_path", oks):
+            ck.decide(rule, "path:get_file_dict_path:only-from-config", not bad, g.span,
+                      "every path get_file_dict_path answers with is Config.file_dict_path.join(..) computed in this call (%d Ok answers)%s" % (len(oks), "" if not bad else "; other sources: %s - a path remembered from an earlier call survives a configuration change, so the word list is written to a directory that is no longer the configured one" % sorted(set(bad))))
 
 
 def _dict_name(ck, p):
